@@ -1,23 +1,19 @@
 (* Model/FastMatch.v — hand-written model of _simulate_price_change_effect_multiple_candles (the fast simulator's matcher for one
    chunk of 1m candles), as it is after the repairs a30b0842 / c714011b:
      real_candle = (first ts, first open, last close, max high, min low, sum volume) of the chunk
-     executing_orders = active orders inside real_candle (sorted along the chunk when more than one); nothing at all happens when empty
-     for each minute i: the minute's candle with high/low stretched to the previous minute's close (i > 0); the `while True` loop of
-       the normal simulator on it, except that after a fill the candidates are the active orders inside real_candle, sorted along what
-       is left of the minute followed by the rest of the chunk.
+     path candles = the chunk's minutes, each normalised to start at the previous minute's close (_get_fixed_jumped_candle on copies)
+     executing_orders = active orders inside real_candle (sorted along the path candles when more than one); nothing at all happens when empty
+     for each minute i: the path candle of the minute; the `while True` loop of the normal simulator on it, except that after a fill the candidates are the active orders inside real_candle, sorted along what
+       is left of the minute followed by the rest of the path candles.
    The strategy layer is the parameter `react` (ANY function), as in Model/Match.v. *)
 From Coq Require Import ZArith QArith Qcanon List Bool.
-From JV Require Import Base.Num Gen.candle Model.Match.
+From JV Require Import Base.Num Gen.candle Gen.backtest Model.Match.
 Import ListNotations.
 Local Open Scope Qc_scope.
 Import QcI.
 
 Definition qmx (a b : Qc) : Qc := if qltb a b then b else a.
 Definition qmn (a b : Qc) : Qc := if qltb b a then b else a.
-
-(* current_temp_candle[3] = max(high, previous close); current_temp_candle[4] = min(low, previous close) *)
-Definition stretch (prev k : cndl) : cndl :=
-  mkC (c_ts k) (c_open k) (c_close k) (qmx (c_high k) (c_close prev)) (qmn (c_low k) (c_close prev)) (c_vol k).
 
 Definition chunk_candle (ks : list cndl) : option cndl :=
   match ks with
@@ -26,6 +22,13 @@ Definition chunk_candle (ks : list cndl) : option cndl :=
                         (fold_left (fun m (x : cndl) => qmx m (c_high x)) r (c_high k))
                         (fold_left (fun m (x : cndl) => qmn m (c_low x)) r (c_low k))
                         (fold_left (fun m (x : cndl) => m + c_vol x) r (c_vol k)))
+  end.
+
+(* the path candles: path_candles[k] = _get_fixed_jumped_candle(path_candles[k - 1], path_candles[k]) on a copy of the chunk *)
+Fixpoint norm_chain (prev : option cndl) (ks : list cndl) : list cndl :=
+  match ks with
+  | [] => []
+  | k :: r => let k' := match prev with Some p => fix_jump QcNum p k | None => k end in k' :: norm_chain (Some k') r
   end.
 
 Inductive foutcome :=
@@ -57,13 +60,13 @@ Fixpoint floop (fuel : nat) (real : cndl) (rest : list cndl) (i : nat) (k : cndl
       end
   end.
 
-Fixpoint fchunk (fuel : nat) (real : cndl) (prev : option cndl) (i : nat) (ks : list cndl) (w cands : list rorder) (fills : list (rorder * cndl * nat)) : foutcome :=
-  match ks with
+(* nks = the path candles still to come, the first one being the current minute *)
+Fixpoint fchunk (fuel : nat) (real : cndl) (i : nat) (nks : list cndl) (w cands : list rorder) (fills : list (rorder * cndl * nat)) : foutcome :=
+  match nks with
   | [] => FDone fills w
-  | k :: r =>
-      let k' := match prev with Some p => stretch p k | None => k end in
+  | k' :: r =>
       match floop fuel real r i k' w cands fills with
-      | inl (Some (fills', w', cands')) => fchunk fuel real (Some k) (S i) r w' cands' fills'
+      | inl (Some (fills', w', cands')) => fchunk fuel real (S i) r w' cands' fills'
       | inl None => FOutOfFuel
       | inr (o, kk) => FSplitFailed o kk
       end
@@ -76,7 +79,8 @@ Definition fast_chunk (fuel : nat) (ks : list cndl) (w : list rorder) : foutcome
       let ex := executing real w in
       match ex with
       | [] => FDone [] w
-      | _ => let cands := if Nat.ltb 1 (length ex) then sort_exec ex ks else ex in fchunk fuel real None 0 ks w cands []
+      | _ => let nks := norm_chain None ks in
+             let cands := if Nat.ltb 1 (length ex) then sort_exec ex nks else ex in fchunk fuel real 0 nks w cands []
       end
   end.
 End Fast.
